@@ -1,7 +1,7 @@
 """C20 — schedules.  Correspondence (AST-translated matchers in gen/ScheduleFns.v, hand model
 ScheduleEval.v vs local/schedule.py on real LocalScheduleObject instances under a virtual clock)
 and the direct, implementation-only predicate (independent interpreter of the BACnet rule)."""
-import calendar, datetime, math, os, time
+import calendar, datetime, json, math, os, subprocess, sys, time
 from core import Case
 from pyerr import canon_call, exc_code
 
@@ -18,16 +18,22 @@ RULE = ('cases: PyRt.last_day vs calendar.monthrange for every month of 1900..21
         'equal, 0 and 17, Null entries, 0..4 weekly entries per day, unsorted and wildcard times in a minority, open/closed effective periods) '
         'evaluated by LocalScheduleInterpreter.eval on real LocalScheduleObject instances at entry times, +-1 hundredth, and random '
         'instants, inside and outside the effective period; timer-driven multi-day runs of real objects under the virtual clock '
-        '(TZ=UTC) including effective-period entry and exit.  non-trivial = a mask with a set and a clear bit, an evaluation that '
+        '(TZ=UTC) including effective-period entry and exit.  direct only: 6..10 schedule objects in one application with 20..40 '
+        'run-time weeklySchedule rewrites (re-installed timers) sampled every 15 minutes for 3 days; 3 objects run across both '
+        'UTC-offset change days of random years in subprocesses with TZ=EST5EDT,M3.2.0,M11.1.0 and TZ=AEST-10AEDT,M10.1.0,M4.1.0/3, '
+        'judged every 15 local minutes by local wall-clock reading (entries before and after the change, none inside 01:00-02:59).  non-trivial = a mask with a set and a clear bit, an evaluation that '
         'is inside the effective period with at least one entry in force, a run with >= 3 firings; distinct by (operation, input).')
 TRUSTED = ['model coq/theories/ScheduleEval.v written by hand after local/schedule.py:216-247,448-603 (line numbers of the fixed worktree) (tie = correspondence); '
            'gen/ScheduleFns.v is the AST translation of match_date/match_date_range/match_weeknday (theorems are about that text)',
-           'time.mktime/time.localtime under TZ=UTC, datetime.date (used as the calendar oracle for day-of-week and month lengths)',
+           'time.mktime/time.localtime (CPython/libc, POSIX TZ rules): modelled only for a constant UTC offset (ScheduleEval.normalise); '
+           'for zones with offset changes datetime_to_time is judged on the implementation by local wall-clock reading (ScheduleSpec.dtt_requirement)',
+           'datetime.date (used as the calendar oracle for day-of-week and month lengths)',
            'the direct interpreter `spec_eval` in harness/props/c20.py (independent reading of clause 12.24.4)']
 ASSUMPTIONS = ['dates are real calendar days of 1900..2154 with the matching day-of-week field (what Date.now() produces)',
                'time values in a list are in ascending order and specific (no 255); event priorities 1..16 (theorems: wf_sched)',
                'timer-driven runs: entry times have hundredths = 0 (datetime_to_time drops hundredths; with a non-zero hundredths '
                'entry the task re-arms at the current second until the clock passes it - busy under a real clock, no progress under a virtual one)',
+               'on days when the local UTC offset changes no entry lies inside the wall-clock hours that do not exist or exist twice (01:00-02:59); inside a repeated hour either reading is accepted',
                'outside the effective period any present value is accepted (the standard leaves it open); the fixed code keeps the last value',
                'equal event priorities in force on the same day: the standard gives precedence to the lower array index; the code merges them (known finding)']
 
@@ -89,7 +95,7 @@ class World:
         bacpypes.task._time = lambda: self.now[0]
         from bacpypes.task import TaskManager
         self.tm = TaskManager()
-        assert time.tzname[0] == 'UTC', time.tzname
+        assert time.tzname[0] == 'UTC' or os.environ.get('C20_DST'), time.tzname      # the DST scenarios run in a subprocess
         from bacpypes.app import Application
         from bacpypes.local.device import LocalDeviceObject
         self.dev = LocalDeviceObject(objectName='dev', objectIdentifier=('device', 1), maxApduLengthAccepted=1024,
@@ -754,6 +760,239 @@ def check_run(cfg, d0, t0, maxfire, failures, stats, attach=None):
         stats['long_runs'] += 1
 
 
+
+# ------------------------------------------------------------------ wall-clock scenarios (several objects, any time zone)
+DST_ZONES = ['EST5EDT,M3.2.0,M11.1.0', 'AEST-10AEDT,M10.1.0,M4.1.0/3']
+
+
+def local_reading(e):
+    """the local wall-clock reading of the instant e (trusted: CPython time.localtime under the process's TZ)"""
+    whole = math.floor(e)
+    g = time.localtime(whole)
+    return (g[0] - 1900, g[1], g[2], g[6] + 1), (g[3], g[4], g[5], int(round((e - whole) * 100)))
+
+
+def _shift(t, minutes):
+    c = max(0, min(86399, t[0] * 3600 + t[1] * 60 + t[2] + minutes * 60))
+    return (c // 3600, c // 60 % 60, c % 60, t[3])
+
+
+def make_distinct(cfg):
+    """distinct priorities 1..16 (keeps the known equal-priority finding out of these scenarios)"""
+    used = set()
+    for e in cfg['exc']:
+        if e['prio'] in used or e['prio'] is None:
+            e['prio'] = [p for p in range(1, 17) if p not in used][0]
+        used.add(e['prio'])
+    return cfg
+
+
+def avoid_hours(cfg, hours=(1, 2)):
+    """no entry inside the wall-clock hours that do not exist / exist twice on a change day"""
+    def fix(tvs):
+        out = [((t[0] + 2, t[1], t[2], t[3]) if t[0] in hours else tuple(t), v) for t, v in tvs]
+        return sorted(out, key=lambda x: x[0])
+    for e in cfg['exc']:
+        e['tvs'] = fix(e['tvs'])
+    if cfg['weekly'] is not None:
+        cfg['weekly'] = [fix(d) for d in cfg['weekly']]
+    return cfg
+
+
+def _weekly_value(weekly):
+    from bacpypes.constructeddata import ArrayOf
+    from bacpypes.basetypes import DailySchedule, TimeValue
+    return ArrayOf(DailySchedule, 7)(
+        [DailySchedule(daySchedule=[TimeValue(time=tuple(t), value=_val(v)) for t, v in day]) for day in weekly])
+
+
+def run_scenario(scn, failures, stats):
+    """scn = {'cfgs': [...], 'start': epoch, 'end': epoch, 'step': seconds, 'actions': [[epoch, index, weekly], ...], 'tz': ...}.
+    All objects live in one application and are driven by the one task manager on the virtual clock.  At every
+    sampled instant each object's presentValue must be the value prescribed for the local wall-clock reading of
+    that instant (inside a repeated wall-clock hour either reading is accepted), and its timer must be armed."""
+    w = World.get()
+    w.reset()
+    w.now[0] = float(scn['start'])
+    objs, cleanups = [], []
+    base = {'scenario': scn, 'tz': scn.get('tz', 'UTC'), 'label': scn.get('label', 'scenario')}
+    try:
+        for cfg in scn['cfgs']:
+            so, cleanup = build(cfg, attach=True)
+            cleanups.append(cleanup)
+            if so.reliability != 'noFaultDetected':
+                return
+            objs.append({'cfg': cfg, 'so': so})
+        actions = {}
+        for when, j, weekly in scn.get('actions', []):
+            actions.setdefault(float(when), []).append((j, weekly))
+        stats['scenarios'] = stats.get('scenarios', 0) + 1
+        w.drain()
+        e = float(scn['start'])
+        while e <= scn['end']:
+            guard = 0
+            try:
+                while w.tm.tasks and w.tm.tasks[0][0] <= e:
+                    w.now[0] = max(w.now[0], w.tm.tasks[0][0])
+                    task, _ = w.tm.get_next_task()
+                    if task is None:
+                        break
+                    w.tm.process_task(task)
+                    w.drain()
+                    guard += 1
+                    if guard > 400:
+                        d, t = local_reading(w.now[0])
+                        failures.append(dict(base, kind='timer-not-ahead', at=list(d) + list(t), cfg=objs[0]['cfg'], date=list(d), time=list(t),
+                                             note='more than 400 firings without the clock advancing past the next sample'))
+                        return
+                w.now[0] = max(w.now[0], e)
+                for j, weekly in actions.get(e, []):
+                    objs[j]['cfg'] = dict(objs[j]['cfg'], weekly=weekly)
+                    objs[j]['so'].weeklySchedule = _weekly_value(weekly)       # schedule_changed -> process_task -> install_task
+                    w.drain()
+            except Exception as ex:
+                d, t = local_reading(w.now[0])
+                failures.append(dict(base, kind='timer-raises', at=list(d) + list(t), exc=repr(ex)[:200], cfg=objs[0]['cfg'], date=list(d), time=list(t)))
+                return
+            d, t = local_reading(e)
+            twice = local_reading(e - 3600) == (d, t) or local_reading(e + 3600) == (d, t)
+            for k, o in enumerate(objs):
+                cfg, so = o['cfg'], o['so']
+                stats['evaluations'] += 1
+                if not so._task.isScheduled:
+                    failures.append(dict(base, kind='timer-not-rearmed', object=k, cfg=cfg, date=list(d), time=list(t), at=list(d) + list(t)))
+                    return
+                if not spec_ok(cfg, d):
+                    continue
+                want = spec_eval(cfg, d, t)
+                if want is None:
+                    continue
+                ok = {want}
+                if twice:
+                    for mins in (-60, -45, -30, -15, 15, 30, 45, 60):
+                        ok.add(spec_eval(cfg, d, _shift(t, mins)))
+                stats['nontrivial'].add((base['label'], base['tz'], stats.get('scenarios', 0), k, e))
+                if so.presentValue.value not in ok:
+                    failures.append(dict(base, kind='stale-value', object=k, cfg=cfg, date=list(d), time=list(t), at=list(d) + list(t),
+                                         shown=so.presentValue.value, want=want, objects=len(objs)))
+                    return
+            e += scn['step']
+    finally:
+        for c in cleanups:
+            c()
+
+
+def multi_scenario(rng):
+    """(UTC) 6..10 schedule objects in one application; the weeklySchedule of some is rewritten at run time, which
+    re-installs an already scheduled task (TaskManager.suspend_task + install_task) among several pending timers"""
+    near = rand_date(rng)
+    while near > END - datetime.timedelta(days=40):
+        near = rand_date(rng)
+    n = rng.randrange(6, 11)
+    cfgs = []
+    for i in range(n):
+        cfg = make_distinct(rand_cfg(rng, near, clean=True, whole=True))
+        if cfg['weekly'] is None or i % 2 == 0:
+            cfg['weekly'] = [rand_tvs(rng, rng.randrange(2, 5), True) for _ in range(7)]
+        cfg['eff'] = ((255, 255, 255, 255), (255, 255, 255, 255)) if i % 3 else cfg['eff']
+        cfgs.append(cfg)
+    start = epoch(dtuple(near), (0, 0, 0, 0))
+    step = 900
+    nsteps = 3 * 96
+    actions = []
+    for _ in range(rng.randrange(20, 41)):
+        k = rng.randrange(1, nsteps - 1)
+        actions.append([start + k * step, rng.randrange(n), [rand_tvs(rng, rng.randrange(1, 5), True) for _ in range(7)]])
+    return {'cfgs': cfgs, 'start': start, 'end': start + nsteps * step, 'step': step, 'actions': actions, 'tz': 'UTC', 'label': 'multi'}
+
+
+def utc_offset(e):
+    return calendar.timegm(time.localtime(e)[:6]) - e
+
+
+def offset_changes(year):
+    """the instants of `year` at which the local UTC offset changes (under the process's TZ)"""
+    out = []
+    e = calendar.timegm((year, 1, 1, 12, 0, 0))
+    end = calendar.timegm((year + 1, 1, 1, 12, 0, 0))
+    prev = utc_offset(e)
+    while e < end:
+        e += 3600
+        cur = utc_offset(e)
+        if cur != prev:
+            out.append(e)
+            prev = cur
+    return out
+
+
+def dst_scenarios(rng, n):
+    """schedules run across the days on which the local UTC offset changes: entries before and after the change
+    (none inside wall-clock hours 01:00-02:59, which do not exist or exist twice on those days)"""
+    out = []
+    while len(out) < n:
+        year = rng.randrange(1975, 2100)
+        for ch in offset_changes(year):
+            g = time.localtime(ch - 30 * 3600)
+            start = ch - 30 * 3600 - (g[3] * 3600 + g[4] * 60 + g[5])          # a local midnight before the change
+            near = datetime.date(*time.localtime(ch)[:3])
+            cfgs = []
+            for i in range(3):
+                cfg = avoid_hours(make_distinct(rand_cfg(rng, near, clean=True, whole=True)))
+                if i == 0:
+                    cfg['weekly'] = [[((0, 30, 0, 0), 1), ((3, 30, 0, 0), 2), ((8, 0, 0, 0), 3), ((17, 0, 0, 0), None), ((23, 45, 0, 0), 4)]] * 7
+                    cfg['exc'] = []
+                if i < 2:
+                    cfg['eff'] = ((255, 255, 255, 255), (255, 255, 255, 255))
+                cfgs.append(cfg)
+            out.append({'cfgs': cfgs, 'start': start, 'end': start + 4 * 86400, 'step': 900, 'actions': [],
+                        'tz': os.environ.get('TZ', ''), 'label': 'dst'})
+    return out[:n]
+
+
+def dst_child(seed, tier):
+    """entry point of the subprocess (TZ already set in its environment)"""
+    import random
+    os.environ['C20_DST'] = '1'
+    time.tzset()
+    World.get()
+    rng = random.Random(seed)
+    failures = []
+    stats = {'evaluations': 0, 'nontrivial': set()}
+    for scn in dst_scenarios(rng, 24 if tier == 'thorough' else 6):
+        run_scenario(scn, failures, stats)
+        if len(failures) > 3:
+            break
+    return {'failures': failures, 'evaluations': stats['evaluations'], 'nontrivial': len(stats['nontrivial']),
+            'scenarios': stats.get('scenarios', 0), 'tzname': list(time.tzname)}
+
+
+def run_dst(seed, tier, failures):
+    """run the wall-clock scenarios in one subprocess per DST zone (POSIX TZ strings: no zone database needed)"""
+    harness = os.path.dirname(os.path.dirname(os.path.abspath(__file__)))
+    tot = {'evaluations': 0, 'nontrivial': 0, 'scenarios': 0, 'zones': []}
+    for tz in DST_ZONES:
+        env = dict(os.environ, TZ=tz, C20_DST='1')
+        code = ('import sys, json; sys.path.insert(0, %r); import core; core.impl_import_guard(); import props.c20 as m; '
+                'print("C20DST" + json.dumps(m.dst_child(%d, %r), default=str))' % (harness, seed, tier))
+        try:
+            p = subprocess.run([sys.executable, '-c', code], env=env, capture_output=True, text=True, timeout=1200)
+            line = [l for l in p.stdout.splitlines() if l.startswith('C20DST')]
+            if p.returncode != 0 or not line:
+                failures.append({'kind': 'dst-harness-crashed', 'tz': tz, 'log': (p.stdout + p.stderr)[-1500:]})
+                continue
+            r = json.loads(line[-1][6:])
+        except subprocess.TimeoutExpired:
+            failures.append({'kind': 'dst-scenario-hangs', 'tz': tz})
+            continue
+        for f in r['failures']:
+            f['tz'] = tz
+            failures.append(f)
+        for k in ('evaluations', 'nontrivial', 'scenarios'):
+            tot[k] += r[k]
+        tot['zones'].append({'tz': tz, 'tzname': r['tzname'], 'scenarios': r['scenarios']})
+    return tot
+
+
 def direct(rng, tier, focus=()):
     from bacpypes.local import schedule as S
     World.get()
@@ -829,9 +1068,19 @@ def direct(rng, tier, focus=()):
         t0 = rand_time(rng, whole=True)
         check_run(cfg, dtuple(near), t0, 40, failures, stats, attach=(True if i % 4 == 0 else None))
     samples.append({'direct': 'timer-runs', 'runs': stats['runs'], 'runs_with_3+_firings': stats['long_runs']})
-    return failures, {'evaluations': stats['evaluations'] + nm, 'distinct_nontrivial': len(stats['nontrivial']) + nm,
+    # (d) several schedule objects in one application, schedules rewritten at run time (re-installed timers)
+    for i in range(40 if tier == 'thorough' else 8):
+        run_scenario(multi_scenario(rng), failures, stats)
+    samples.append({'direct': 'multi-object', 'scenarios': stats.get('scenarios', 0), 'objects': '6..10 per application',
+                    'sampling': 'every 15 minutes for 3 days, 20..40 weeklySchedule rewrites'})
+    # (e) the same judgement by local wall-clock reading in zones whose UTC offset changes, in subprocesses
+    dst = run_dst(rng.randrange(1 << 30), tier, failures)
+    stats['evaluations'] += dst['evaluations']
+    samples.append({'direct': 'dst-wall-clock', 'zones': dst['zones'], 'evaluations': dst['evaluations'],
+                    'sampling': 'every 15 local minutes over 4 days around each offset change'})
+    return failures, {'evaluations': stats['evaluations'] + nm, 'distinct_nontrivial': len(stats['nontrivial']) + nm + dst['nontrivial'],
                       'exhaustive': True, 'exhaustive_domain': 'every calendar date 1900-01-01..2154-12-31 (x sampled pattern classes)',
-                      'matcher_evaluations': nm, 'timer_runs': stats['runs'], 'samples': samples}
+                      'matcher_evaluations': nm, 'timer_runs': stats['runs'], 'dst_scenarios': dst['scenarios'], 'samples': samples}
 
 
 def _failure_date(f):
@@ -869,10 +1118,37 @@ def _fix_cfg(cfg):
     return c
 
 
+def replay_scenario(scn):
+    """re-run one stored wall-clock scenario under the current TZ and print what fails"""
+    scn = dict(scn)
+    scn['cfgs'] = [_fix_cfg(c) for c in scn['cfgs']]
+    scn['actions'] = [[a[0], a[1], [[(tuple(t), v) for t, v in day] for day in a[2]]] for a in scn.get('actions', [])]
+    World.get()
+    failures, stats = [], {'evaluations': 0, 'nontrivial': set()}
+    run_scenario(scn, failures, stats)
+    print('TZ', os.environ.get('TZ'), time.tzname, 'evaluations', stats['evaluations'])
+    for x in failures:
+        print('implementation fails:', {k: v for k, v in x.items() if k not in ('cfg', 'scenario')})
+    if not failures:
+        print('no failure: every object showed the prescribed value at every sampled instant')
+
+
 def replay(payload):
     import core
     f = payload.get('failure') or (payload.get('broken') or [{}])[0].get('minimal_case', {}).get('desc', {})
-    print('replay', {k: v for k, v in f.items() if k != 'cfg'})
+    print('replay', {k: v for k, v in f.items() if k not in ('cfg', 'scenario')})
+    if 'scenario' in f:
+        tz = f.get('tz', 'UTC')
+        if tz in ('UTC', ''):
+            replay_scenario(f['scenario'])
+        else:
+            harness = os.path.dirname(os.path.dirname(os.path.abspath(__file__)))
+            code = ('import sys, json, os, time; sys.path.insert(0, %r); os.environ["C20_DST"] = "1"; time.tzset(); import core; core.impl_import_guard(); '
+                    'import props.c20 as m; m.replay_scenario(json.loads(sys.stdin.read()))' % harness)
+            p = subprocess.run([sys.executable, '-c', code], env=dict(os.environ, TZ=tz, C20_DST='1'), input=json.dumps(f['scenario']),
+                               capture_output=True, text=True, timeout=1200)
+            print(p.stdout[-3000:], p.stderr[-1500:])
+        return
     World.get()
     if f.get('kind') == 'pattern-mismatch':
         from bacpypes.local import schedule as S
